@@ -28,4 +28,18 @@ CLAIMS = {
         "technique": "MIR call-site audit (who-may-call io::Write::write), error-drop dataflow, constant propagation of "
                      "Options::default() through formatter overrides",
     },
+    "C03": {
+        "text": "Claimed for every input, option set and source kind (a property of the program text): (1) bounded recursion - "
+                "every cycle of the parser's call graph contains a call site charged to remaining_depth (delta -1, after the "
+                "== 0 test), the counter is restored on every exit and starts at a constant >= 101; (2) no panic - every "
+                "panic!/unreachable!/unwrap/expect/index/bounds/division construct reachable from the parse entry points is "
+                "discharged by a guard on the same places or listed with its reason in the reviewed inventory (a new site "
+                "alarms); (3) returns - every lexer loop makes progress on each cycle and each successful parse step "
+                "consumes input for all 257 first-byte cases. Thorough adds the arithmetic-overflow audit and the "
+                "--no-default-features build. Which error is returned is not decided.",
+        "note": _TB + "Reasons recorded in tables/panics.json, tables/arith.json, tables/progress.json are reviewed by hand; "
+                "std collections do not panic except on allocation failure; inputs shorter than 2^31 bytes.",
+        "technique": "call-graph SCC + dominator/dataflow analysis of the depth counter, panic-site inventory with guard "
+                     "discharge, natural-loop progress analysis, conditional constant propagation over the first input byte",
+    },
 }
